@@ -64,9 +64,12 @@ fn k_opt_accept_any_kt() {
     let mut rng = AnyRng;
     let r = opt.accept_score(new, old, kt, &mut rng);
     if new.is_none() { assert!(r.is_none()); }
+    // a score that is not a number is not a defined score: never accepted (defect D10, fixed)
+    if let Some(n) = new { if n.is_nan() { assert!(r.is_none()); } }
     if let Some(a) = r { assert!(a.to_bits() == new.unwrap().to_bits()); }
     if let Some(n) = new { if n > old { assert!(r.is_some()); } }
     kani::cover!(new.is_none());
+    kani::cover!(new.is_some() && new.unwrap().is_nan());
     kani::cover!(r.is_some());
 }
 
